@@ -554,3 +554,87 @@ def returns_with_atoms(fn, watch, limit=20000):
                         nxt.add((txt, tr))
             stack.append((s, frozenset(nxt)))
     return out, rets
+
+
+def escapes_const(fn, start_bid, is_pass, exempt_edge=None, target_expr=None, init_env=None, limit=20000):
+    """Like escapes(), starting at the head of block start_bid, but path-sensitive in the integer constants last assigned
+    to local variables: a branch on `v`, `!v`, `v == K`, `v != K`, `v < K`, `v >= K` whose outcome is decided by the
+    constant held by v is followed only along the decided edge.  Returns None or the list of (block, line) of a path
+    that reaches target_expr without an element satisfying is_pass."""
+    import re
+    seen = set()
+    stack = [(start_bid, frozenset((init_env or {}).items()), [(start_bid, None)])]
+    while stack and len(seen) < limit:
+        bid, envf, path = stack.pop()
+        if (bid, envf) in seen:
+            continue
+        seen.add((bid, envf))
+        b = fn.bmap[bid]
+        env = dict(envf)
+        stop = False
+        for i, ln, x in block_exprs(b):
+            if is_pass(x):
+                stop = True
+                break
+            if target_expr is not None and target_expr(x):
+                return path + [(bid, ln)]
+            if x.get("k") == "ret":
+                stop = True
+                break
+            for m in walk(x):
+                tgt = None
+                if m.get("k") == "bin" and m["op"] == "=":
+                    tgt = strip(m["l"])
+                    r = strip(m["r"])
+                    while r is not None and r.get("k") == "cast":
+                        r = strip(r["e"])
+                    if tgt is not None and tgt.get("k") == "var" and tgt.get("sc") == "l":
+                        if r is not None and r.get("k") == "int":
+                            env[tgt["n"]] = r["v"]
+                        elif r is not None and r.get("k") == "un" and r["op"] == "-" and (strip(r["e"]) or {}).get("k") == "int":
+                            env[tgt["n"]] = -strip(r["e"])["v"]
+                        else:
+                            env.pop(tgt["n"], None)
+                elif m.get("k") == "decl" and "init" in m and (m.get("var") or {}).get("n"):
+                    r = strip(m["init"])
+                    if r is not None and r.get("k") == "int":
+                        env[m["var"]["n"]] = r["v"]
+                    else:
+                        env.pop(m["var"]["n"], None)
+                elif m.get("k") == "bin" and m["op"] in ("+=", "-=", "|=", "&=", "^=", "<<=", ">>="):
+                    tgt = strip(m["l"])
+                    if tgt is not None and tgt.get("k") == "var":
+                        env.pop(tgt.get("n"), None)
+                elif m.get("k") == "un" and m.get("op") in ("post++", "pre++", "post--", "pre--", "++", "--"):
+                    tgt = strip(m["e"])
+                    if tgt is not None and tgt.get("k") == "var":
+                        env.pop(tgt.get("n"), None)
+                elif m.get("k") == "call":
+                    for a in m.get("a", []):
+                        a0 = strip(a)
+                        if a0 is not None and a0.get("k") == "un" and a0["op"] == "&" and (strip(a0["e"]) or {}).get("k") == "var":
+                            env.pop(strip(a0["e"]).get("n"), None)
+        if stop:
+            continue
+        t = b.get("term")
+        for k, sc in enumerate(b["succ"]):
+            s_ = sc.get("b")
+            if s_ is None:
+                continue
+            if exempt_edge is not None and exempt_edge(b, k):
+                continue
+            feasible = True
+            if t is not None and "c" in t and len(b["succ"]) == 2:
+                for (txt, tr, nd) in _cond_atoms(t["c"], k == 0):
+                    m = re.match(r"^\((\w+) (==|!=|<|<=|>|>=) (-?\d+)\)$", txt)
+                    if m and m.group(1) in env:
+                        v, op, kk = env[m.group(1)], m.group(2), int(m.group(3))
+                        val = {"==": v == kk, "!=": v != kk, "<": v < kk, "<=": v <= kk, ">": v > kk, ">=": v >= kk}[op]
+                        if val != tr:
+                            feasible = False
+                    elif re.match(r"^\w+$", txt) and txt in env:
+                        if (env[txt] != 0) != tr:
+                            feasible = False
+            if feasible:
+                stack.append((s_, frozenset(env.items()), path + [(s_, t.get("ln") if t else None)]))
+    return None
